@@ -1,4 +1,5 @@
 import Morlock.Model.BoardGame
+import Morlock.Model.EngineExplore
 import Morlock.Spec.Search
 import Morlock.Driver.Game
 import Morlock.Driver.Score
@@ -8,16 +9,32 @@ open Morlock Morlock.Model
 structure SearchCfgM where
   ex : World → Explore
   le : LeafEval World
+  /-- the game searched (leaf evaluation): material unless stated otherwise -/
+  game : ZTable → Game World := materialGame
+
+/-- order-embedding key of a float32 given by the rational it denotes (`Flt.bits32`: sign-magnitude, negated for negatives) -/
+def f32keyOfQ (q : Flt.Q) : Int :=
+  match Flt.bits32 q with
+  | some b => if b ≥ 2147483648 then -((b - 2147483648 : Nat) : Int) else (b : Int)
+  | none => 0
+
+/-- BERNSTEIN's evaluation (factor 8, as the harness wires it) as a leaf key; a position without a king (where Go panics) is not searched by the stream -/
+def bernsteinKey (pos : Position) (turn : Color) : Int :=
+  match Bernstein.evalEvaluate pos 8 turn with
+  | some q => f32keyOfQ q
+  | none => 0
 
 def capturesOnly : Explore := { prio := mvvlva, pick := fun m => m.isCapture }
 def noUnderPromo : Explore := { prio := mvvlva, pick := fun m => !m.isUnderPromotion }
 
 def cfgModel (name : String) : Option SearchCfgM :=
   match name with
-  | "full-static" => some ⟨constEx fullExploration, .static⟩
-  | "full-quiet" => some ⟨constEx fullExploration, .quiescence (constEx capturesOnly) 64⟩
-  | "nup-static" => some ⟨constEx noUnderPromo, .static⟩
-  | "nup-quiet" => some ⟨constEx noUnderPromo, .quiescence (constEx capturesOnly) 64⟩
+  | "full-static" => some { ex := constEx fullExploration, le := .static }
+  | "full-quiet" => some { ex := constEx fullExploration, le := .quiescence (constEx capturesOnly) 64 }
+  | "nup-static" => some { ex := constEx noUnderPromo, le := .static }
+  | "nup-quiet" => some { ex := constEx noUnderPromo, le := .quiescence (constEx capturesOnly) 64 }
+  -- the search the BERNSTEIN engine runs: plausible-move table (limit 7) at every node, its own evaluation at the leaves
+  | "bern-static" => some { ex := bernsteinExplore 7, le := .static, game := fun z => boardGame z bernsteinKey }
   | _ => none
 
 def specIsCapture (p : Spec.Pos) (m : Spec.SMove) : Bool := p.occ m.to   -- en passant is not a `Capture` type move
@@ -30,6 +47,7 @@ def cfgSpec (name : String) : Option Spec.SearchCfg :=
   | "full-quiet" => some ⟨fun _ _ => true, some specIsCapture, leaf⟩
   | "nup-static" => some ⟨specNotUnderPromo, none, leaf⟩
   | "nup-quiet" => some ⟨specNotUnderPromo, some specIsCapture, leaf⟩
+  | "bern-static" => some ⟨fun _ _ => true, none, leaf⟩   -- no reference for this configuration: always run as `bern-static~`
   | _ => none
 
 def pvStr (pv : List Move) : String := if pv.isEmpty then "-" else String.intercalate "," (pv.map moveUci)
@@ -72,7 +90,7 @@ def searchItem (z : ZTable) (cm : SearchCfgM) (cs : Spec.SearchCfg) (noSpec : Bo
     | [ds, at_, am, ak, bt, bm, bk, cs_] =>
       match ds.toNat?, parseScore? s!"{at_}:{am}:{ak}", parseScore? s!"{bt}:{bm}:{bk}", cs_.toNat? with
       | some d, some a, some b, some cancel =>
-        let g := materialGame z
+        let g := cm.game z
         let st0 : SState := { r.st with polls := 0, cancelAt := if cancel = 0 then none else some cancel, nodes := 0 }
         let (res, st1) := alphaBetaSearch g cm.ex cm.le r.w d a b st0
         -- side effect on the caller's board: a root without legal moves is adjudicated by the search
